@@ -71,7 +71,7 @@ pub fn run(ctx: &Ctx) {
     });
     ctx.run.space(json!({"universe": "every scalar with a single-scalar std lower- or upper-case partner p: lists [p,c], [c,p], [\"pc\"], [\"cp\"], [\"px\",\"cy\"] (list order as given)", "sets": pairs.len(), "settings": "i", "cases": pairs.len()}));
     let bases: Vec<Cfg> = [0, R, X, G, E, D, W].iter().map(|b| Cfg::new(I | b)).collect();
-    let mut blocks = vec![Block::new(Universe::new("U_adv(A_case)", A_CASE, if thorough { 3 } else { 2 }, 2, true), bases.clone(), "i x {{}, r, x, g, e, d, w}")];
+    let mut blocks = vec![Block::new(Universe::new("U_adv(A_case)", A_CASE, 2, 2, true), bases.clone(), "i x {{}, r, x, g, e, d, w}")];
     blocks.push(Block::new(Universe::new("U_adv(A_case)", A_CASE, 3, 1, false), bases.clone(), "i x {{}, r, x, g, e, d, w}"));
     blocks.push(Block::new(Universe::new("U_aAbB{a,A,b,B}", &["a", "A", "b", "B"], 2, 3, true), vec![Cfg::new(I), Cfg::new(I | R), Cfg::new(I | NA | NE)], "i, i+r, i+na+ne"));
     if thorough {
